@@ -85,14 +85,17 @@ Print Assumptions C13_merge_undo.
    Proved beyond it: C13_merge_apply_partial_mixed (end of this file) - every C in which the top-level identities touched
    by both diffs are back at their state in A; C = A and the disjoint case are instances of it - and
    C13_merge_apply_partial_cells: in addition the roots that meet may be leaves in the cells replace + replace,
-   create + replace, delete + create (mdflt = false).
+   create + replace, create + none, replace + none, replace + delete, delete + create (mdflt = false).
    What remains missing for the full statement, precisely: a proof for the MIXED cells, i.e. for a root (or, below two
    none nodes, a child) of diff(B,C) that meets a node of diff(A,B) with the same identity without undoing it:
-   replace + replace to a third value, create + replace / none, replace / none + delete, delete + create with another
-   value, none(inner) + none(inner) with changes below that are not each other's undo.  The level bookkeeping is done
+   at the top level the two leaf cells none (flag) + replace and none (flag) + delete (their merged node is not an Sp
+   node, see C13_merge_apply_partial_cells) and every non-cancelling cell of an inner node or (leaf-)list instance, in
+   particular none(inner) + none(inner) with changes below that are not each other's undo; below the top level every
+   cell.  The level bookkeeping is done
    (DiffMergeP.level_build: LevelSp from pointwise facts; mix_fold: the fold over the source roots with the outcomes
    cancel / add, mix_fold3: with the third outcome, the met node replaced in place; cell_replace_replace, cell_create_replace,
-   cell_delete_create: the Sp of the merged leaf); what the remaining cells still need is (2) per
+   cell_create_none, cell_replace_none, cell_replace_delete, cell_delete_create: the Sp of the merged leaf); what the
+   remaining cells still need is (2) per
    cell the Sp of the merged node (for none + none: Sp_none_inner of the merged parent via sp_inner_build), (3) for
    none + none the recursion through merge_children with the default-flag walks and the removal of a parent that
    becomes redundant, and (4) for children added below a merged list instance a schema fact the model does not have yet:
@@ -191,17 +194,28 @@ Example C13_merge_mixed_example :
 Proof. vm_compute. repeat split; reflexivity. Qed.
 
 (* The composition law when the top-level roots that meet are operations on a LEAF in one of the cells of the merge table
-   in which the met root is replaced in place - replace + replace (to a third value: replace with the first orig-value;
-   back to the value with another default flag: none; back altogether: removed), create + replace (created with the last
-   value), delete + create (another value: replace; the same value with another flag: none; the same leaf: removed) - or
-   cancel as in C13_merge_apply_partial_mixed, which is the instance without such cells.  Without LYD_DIFF_MERGE_DEFAULTS:
-   with it the cell delete + create is the known finding merge-defaults-opt-delete-create.  The hypothesis is stated on
-   the two diffs (executable).
-   Still missing after this step: the other leaf cells (replace or create + none (flag), none + replace / none, replace /
-   none / create + delete of a leaf that met a non-cancelling change), every cell of a root that is an inner node or a
-   leaf-list / list instance without cancelling - none (inner) + none (inner) with the recursion through merge_children,
-   the default-flag walks, the removal of a parent that becomes redundant, and the keys-lead schema fact for children
-   added below a merged list instance (see C13_merge_apply_partial) -, and the same cells below the top level. *)
+   in which the met root is replaced in place - or cancel as in C13_merge_apply_partial_mixed, which is the instance
+   without such cells.  leaf_cell lists the cells as (operation in diff(A,B), operation in diff(B,C)):
+     replace + replace  to a third value: replace with the first orig-value; back to the value with another default flag:
+                        none; back altogether: removed
+     create + replace   created with the last value and flag (the class of seeded change C13-4: the flag of the second
+                        diff reaches a created leaf - Example C13_merge_cells_seed_regression)
+     create + none      created with the new flag
+     replace + none     replace with the new flag
+     replace + delete   the original leaf is deleted (orig-value / orig-default restored into the node)
+     delete + create    another value: replace; the same value with another flag: none; the same leaf: removed.
+   Together with the cancelling pairs (create + delete and none + none on a leaf always cancel) these are all cells of a
+   top-level leaf except two whose merged node is not a diff node in the sense of DiffTreeP.Sp, although applying it
+   gives C: none (flag) + replace - lyd_diff_merge_replace() adds no orig-value and does not merge the flag of the second
+   diff (correct only because a default leaf holds the schema default value, which wfb does not say) - and none (flag) +
+   delete - the merged delete node keeps the flag of B and its orig-default.  Both need a weaker Sp (Sp_replace without
+   orig-value, Sp_delete up to the flag) and apply_sp re-proved for it.
+   Without LYD_DIFF_MERGE_DEFAULTS: with it the cell delete + create is the known finding
+   merge-defaults-opt-delete-create.  The hypothesis is stated on the two diffs (executable).
+   Still missing after this step: the two leaf cells above, every cell of a root that is an inner node or a leaf-list /
+   list instance without cancelling - none (inner) + none (inner) with the recursion through merge_children, the
+   default-flag walks, the removal of a parent that becomes redundant, and the keys-lead schema fact for children added
+   below a merged list instance (see C13_merge_apply_partial) -, and the same cells below the top level. *)
 Theorem C13_merge_apply_partial_cells :
   forall sch fa fb fc d1 d2,
   wfb sch fa = true -> wfb sch fb = true -> wfb sch fc = true ->
@@ -229,6 +243,43 @@ Example C13_merge_cells_example :
       map dd_op d2 = [Some OpReplace; Some OpReplace; Some OpCreate] /\
       match merge c_sch false (map redup d1) d2 with
       | Ok m => map dd_op m = [Some OpReplace; Some OpCreate; Some OpReplace] /\ apply c_sch m fa = Ok fc
+      | Err _ => False
+      end
+  | _, _ => False
+  end.
+Proof. vm_compute. repeat split; reflexivity. Qed.
+
+(* the other three cells: A = {y = 1, z = 8}, B = {x = 5, y = 2, z = 9}, C = {x = 5 default, y = 2 default}:
+   x create + none, y replace + none, z replace + delete *)
+Example C13_merge_cells_example2 :
+  let fa := [DN 1 [49] false [] []; DN 2 [56] false [] []] in
+  let fb := [DN 0 [53] false [] []; DN 1 [50] false [] []; DN 2 [57] false [] []] in
+  let fc := [DN 0 [53] true [] []; DN 1 [50] true [] []] in
+  wfb c_sch fa = true /\ wfb c_sch fb = true /\ wfb c_sch fc = true /\
+  match diff c_sch true fa fb, diff c_sch true fb fc with
+  | Ok d1, Ok d2 =>
+      map dd_op d1 = [Some OpCreate; Some OpReplace; Some OpReplace] /\
+      map dd_op d2 = [Some OpNone; Some OpNone; Some OpDelete] /\
+      match merge c_sch false (map redup d1) d2 with
+      | Ok m => map dd_op m = [Some OpCreate; Some OpReplace; Some OpDelete] /\ apply c_sch m fa = Ok fc
+      | Err _ => False
+      end
+  | _, _ => False
+  end.
+Proof. vm_compute. repeat split; reflexivity. Qed.
+
+(* regression case of the class of seeded change C13-4 (the default flag of the second diff must reach a leaf the first
+   diff creates): leaf x with schema default 7; A = {}, B = {x = 5}, C = {x = 7 default}: create + replace gives ONE
+   create of x = 7 WITH the default flag, and the merged diff applied to A is C *)
+Definition s_sch : schema := [ (0, mk_sinfo KLeaf None [] false true [[55]] [] false 0 None OBytes) ].
+Example C13_merge_cells_seed_regression :
+  let fb := [DN 0 [53] false [] []] in
+  let fc := [DN 0 [55] true [] []] in
+  wfb s_sch fb = true /\ wfb s_sch fc = true /\
+  match diff s_sch true [] fb, diff s_sch true fb fc with
+  | Ok d1, Ok d2 =>
+      match merge s_sch false (map redup d1) d2 with
+      | Ok m => m = [DD 0 [55] true (Some OpCreate) None None []] /\ apply s_sch m [] = Ok fc
       | Err _ => False
       end
   | _, _ => False
